@@ -332,7 +332,7 @@ func replScenario(out *Out, r *rand.Rand, sc int) {
 	wg.Wait()
 	close(stop)
 	// quiescence: content and index must become the leader's
-	e.waitConverged(names, 30*time.Second)
+	e.waitConverged(names, 90*time.Second)
 	for _, n := range names {
 		li, err1 := leaderIdx(e.follower, n)
 		ps, err2 := fullPairs(e.follower, n, false)
@@ -351,7 +351,7 @@ func replScenario(out *Out, r *rand.Rand, sc int) {
 			out.Count("table_deleted")
 		}
 	}
-	e.waitConverged(names, 20*time.Second)
+	e.waitConverged(names, 60*time.Second)
 	e.line("tables", e.followerTables())
 	// known finding K4: a table deleted and created again on the leader (a new, empty table with a
 	// log of its own) while the follower still has the old one
